@@ -211,7 +211,7 @@ def run(ctx):
         eq_old = test in (f"{iv}.line.value==len(self._subroutine.instructions)", f"len(self._subroutine.instructions)=={iv}.line.value")
         sets_flag = [st for st in t.body if isinstance(st, ast.Assign) and isinstance(st.value, ast.Constant) and st.value.value is True]
         to_end = [st for st in t.body if isinstance(st, ast.Assign) and A.norm(st.targets[0]) == f"{iv}.line" and A.norm(st.value) == "Immediate(len(new_commands))"]
-        through = [st for st in t.orelse if isinstance(st, ast.Assign) and A.norm(st.targets[0]) == f"{iv}.line" and A.norm(st.value) == f"Immediate(index_changes[{iv}.line.value])"]
+        through = [st for st in t.orelse if isinstance(st, ast.Assign) and A.norm(st.targets[0]) == f"{iv}.line" and A.norm(A.expand(st.value, defs)) == f"Immediate(index_changes[{iv}.line.value])"]
         flag = sets_flag[0].targets[0].id if sets_flag else None
         ok_e = eq_old and len(sets_flag) == 1 and len(to_end) == 1 and len(through) == 1
         detail = f"test `{src(t.test)}`, end arm {[src(s) for s in t.body]}, other arm {[src(s) for s in t.orelse]}"
@@ -366,6 +366,15 @@ def check_scratch(ctx, nvt, rw):
                     # the only condition on recording an operand is that it is a Register (facts that hold at the call, inside the operand loop)
                     facts = [(A.norm(t), pol) for t, pol in G.path_conditions(st, x)]
                     adds_all = all(n_ == f"isinstance({ov},Register)" and pol for n_, pol in facts)
+    # or in one go: S.update(<op for op in instr.operands if isinstance(op, Register)>)
+    for st in rw.body:
+        for x in ast.walk(st):
+            if isinstance(x, ast.Call) and isinstance(x.func, ast.Attribute) and A.is_self_attr(x.func.value, S) and x.func.attr == "update" and len(x.args) == 1 \
+                    and isinstance(x.args[0], (ast.GeneratorExp, ast.ListComp, ast.SetComp)) and len(x.args[0].generators) == 1:
+                g_ = x.args[0].generators[0]
+                if isinstance(g_.target, ast.Name) and A.norm(g_.iter) == f"{instr_v}.operands" and A.norm(x.args[0].elt) == g_.target.id \
+                        and [A.norm(c_) for c_ in g_.ifs] == [f"isinstance({g_.target.id},Register)"] and not G.path_conditions(rw, x):
+                    adds_all = True
     ctx.check("C08.U", f"transpile:every-register-operand-recorded-in-{S}", adds_all,
               f"the rewrite loop does not add every Register operand of every instruction to self.{S}, the set the scratch register is chosen outside of: "
               "a register the program uses (e.g. one filled by `load`) can be picked as scratch and overwritten with `set <reg> 0`", repo.loc(m, rw),
